@@ -142,9 +142,21 @@ func (o *optionDefinitions) asOptions() []util.Option { //nolint: gocyclo,gocogn
 
 			opts[i] = options.WithTermWidth(intVal)
 		case transportSystemOpenArgs:
-			strSliceVal, ok := opt.Value.([]string)
+			// yaml/json unmarshal a list into an interface{} as []interface{}, never as []string
+			ifaceSliceVal, ok := opt.Value.([]interface{})
 			if !ok {
 				panic("option transportSystemOpenArgs value must be an array of strings")
+			}
+
+			strSliceVal := make([]string, len(ifaceSliceVal))
+
+			for idx, ifaceVal := range ifaceSliceVal {
+				strVal, ok := ifaceVal.(string)
+				if !ok {
+					panic("option transportSystemOpenArgs value must be an array of strings")
+				}
+
+				strSliceVal[idx] = strVal
 			}
 
 			opts[i] = options.WithSystemTransportOpenArgs(strSliceVal)
